@@ -620,6 +620,7 @@ pub unsafe extern "C" fn biscuit_builder_build(
 
     let slice = std::slice::from_raw_parts(seed_ptr, seed_len);
     if slice.len() != 32 {
+        update_last_error(Error::InvalidArgument);
         return None;
     }
 
@@ -634,6 +635,7 @@ pub unsafe extern "C" fn biscuit_builder_build(
         .build_with_rng(&key_pair.0, SymbolTable::default(), &mut rng)
         .map(Biscuit)
         .map(Box::new)
+        .map_err(|e| update_last_error(Error::Biscuit(e)))
         .ok()
 }
 
@@ -655,6 +657,7 @@ pub unsafe extern "C" fn biscuit_from<'a>(
     biscuit_auth::Biscuit::from(biscuit, root.0)
         .map(Biscuit)
         .map(Box::new)
+        .map_err(|e| update_last_error(Error::Biscuit(e)))
         .ok()
 }
 
@@ -891,7 +894,13 @@ pub unsafe extern "C" fn biscuit_authorizer<'a>(
     }
     let biscuit = biscuit?;
 
-    (*biscuit).0.authorizer().map(Authorizer).map(Box::new).ok()
+    (*biscuit)
+        .0
+        .authorizer()
+        .map(Authorizer)
+        .map(Box::new)
+        .map_err(|e| update_last_error(Error::Biscuit(e)))
+        .ok()
 }
 
 #[no_mangle]
@@ -1168,6 +1177,7 @@ pub unsafe extern "C" fn authorizer_builder_build(
         .build(&token.0)
         .map(Authorizer)
         .map(Box::new)
+        .map_err(|e| update_last_error(Error::Biscuit(e)))
         .ok()
 }
 
@@ -1190,6 +1200,7 @@ pub unsafe extern "C" fn authorizer_builder_build_unauthenticated(
         .build_unauthenticated()
         .map(Authorizer)
         .map(Box::new)
+        .map_err(|e| update_last_error(Error::Biscuit(e)))
         .ok()
 }
 
